@@ -337,12 +337,14 @@ use config::Config;
 //              error of type X" = an entry Internal{code: X})
 //   g_uni    — disposition log of `poll_accept_recv` (unit uni_streams): (stream identity, what it resolved to)
 //   g_stops  — (stream identity, code) for every `stop_sending` issued on a resolved unidirectional stream
+//   g_accepted — identities of the streams taken from the transport's `poll_accept_recv` during the last run
 //@extract h3/src/connection.rs :: - :: struct ConnectionInner
 //@attr #[verifier::reject_recursive_types(C)]
 //@attr #[verifier::reject_recursive_types(B)]
 //@ghost-field g_raised: Ghost<Seq<ErrorOrigin>>
 //@ghost-field g_uni: Ghost<Seq<(int, UniDisp)>>
 //@ghost-field g_stops: Ghost<Seq<(int, u64)>>
+//@ghost-field g_accepted: Ghost<Seq<int>>
 //@end
 // source paths used by the extracted bodies (`stream::PollTypeError::…`, rule R6)
 pub mod stream { pub use super::PollTypeError; }
